@@ -147,7 +147,8 @@ def run(tier, seed, replay=None):
                 continue
             raise MachineryError(f"driver: {req[:40]} -> {out[:100]}")
         run.model_checked += 1
-        if out.strip() != got:
+        want = ";".join(x or "-" for x in got.split(";")) if got else "none"
+        if out.split()[0] != want:
             run.fail("impl-vs-model", case, {"correspondence": "Impl.mapPieces",
                                              "model": out[:200], "impl": got[:200]})
     return run.finish()
